@@ -344,7 +344,7 @@ def cell_dict(wm, ffb, cell):
 
 
 def part_table(ck, classes):
-    spvs = SPV if ck.thorough else SPV[1:]
+    spvs = SPV      # both: with 1.0 a provider fails a constraint the system satisfies, with 2.5 the other way round
     cells = list(itertools.product(SYS, CONS, PROV, spvs, REQ, AF))
     per_setup = 45
     jobs = []
